@@ -269,12 +269,18 @@ def find_tasks_in_param(param_value: Any, searched_coll_ids: Optional[set[int]] 
     raise TaskError(msg)
 
 
-def get_direct_dependencies(task: Task) -> OrderedSet[Task]:
-    """Return an OrderedSet of tasks that are direct (first-level)
-    dependencies of the given task in its attributes."""
-    dependency_tasks: OrderedSet[Task] = OrderedSet()
+def get_direct_dependencies(task: Task) -> Sequence[Task]:
+    """Return the task objects that are direct (first-level)
+    dependencies of the given task in its attributes.
+
+    Every distinct task object is returned once, in the order it is
+    found; separate objects that compare equal are all included, so
+    that each of them can be given access to the dependency's result.
+
+    """
+    dependency_tasks: dict[int, Task] = {}
     for field in fields(task):
         field_value = getattr(task, field.name)
         for dependency_task in find_tasks_in_param(field_value):
-            dependency_tasks.add(dependency_task)
-    return dependency_tasks
+            dependency_tasks[id(dependency_task)] = dependency_task
+    return list(dependency_tasks.values())
